@@ -193,6 +193,47 @@ def run(ctx):
     ctx.ob("R11.10", "integer spellings", not bad10, site=A.where(u.function("scanf_fmtstr")), detail={"tokens": n10, "mismatches": bad10[:6]},
            key="R11.10:integer spellings",
            what="the readers give integer spellings another value than they denote: %s" % bad10[:3])
+    # ---- R11.19: "is the step zero" is an exact question
+    ctx.rule("R11.19", "EXACT-ZERO-STEP: in delta_from_arg_vals the comparisons whose result decides `the step is zero` (the variable tested by `if(!cmp)`) are exact - no tolerance options - : the tolerance of 0.001 is for the check that n steps reach the right end; "
+             "with it, a float range whose step is 0.001 or smaller reads as a range without step")
+    fd19 = u.function("delta_from_arg_vals")
+    zero_tested = set()
+    for y in A.walk(u.body(fd19)):
+        if y.get("kind") == "IfStmt":
+            c_ = A.strip_casts(A.kids(y)[0])
+            if c_.get("kind") == "UnaryOperator" and c_.get("opcode") == "!" and A.ref_id(A.kids(c_)[0]):
+                zero_tested.add(A.ref_id(A.kids(c_)[0]))
+            elif c_.get("kind") == "BinaryOperator" and c_.get("opcode") in ("==", "!=") and 0 in (A.int_literal(A.kids(c_)[0]), A.int_literal(A.kids(c_)[1])):
+                for side in A.kids(c_):
+                    if A.ref_id(side):
+                        zero_tested.add(A.ref_id(side))
+    n19 = 0
+    for y in A.walk(u.body(fd19)):
+        tgt, val = None, None
+        if y.get("kind") == "BinaryOperator" and y.get("opcode") == "=":
+            tgt, val = A.ref_id(A.kids(y)[0]), A.kids(y)[1]
+        elif y.get("kind") == "VarDecl" and A.kids(y):
+            tgt, val = y.get("id"), A.kids(y)[-1]
+        if tgt is None or tgt not in zero_tested:
+            continue
+        v_ = A.strip_casts(val)
+        if v_.get("kind") != "CallExpr" or A.callee_name(v_) not in ("rtosc_arg_vals_cmp", "rtosc_arg_vals_cmp_single", "rtosc_arg_vals_eq", "rtosc_arg_vals_eq_single"):
+            continue
+        n19 += 1
+        opt = A.strip_casts(A.kids(v_)[-1])
+        exact = opt.get("kind") in ("GNUNullExpr", "CXXNullPtrLiteralExpr") or A.int_literal(opt) == 0 or A.src(opt).strip("() ") in ("NULL", "(void *)0", "(void*)0", "0")
+        if not exact:
+            # options with a tolerance of zero are exact as well
+            lits = [z for z in A.walk(opt) if z.get("kind") == "FloatingLiteral"]
+            od = u.by_id.get(A.ref_id(A.kids(opt)[0])) if opt.get("kind") == "UnaryOperator" and opt.get("opcode") == "&" and A.ref_id(A.kids(opt)[0]) else None
+            if od is not None:
+                lits = [z for z in A.walk(od) if z.get("kind") == "FloatingLiteral"]
+            if lits and all(float(z.get("value")) == 0.0 for z in lits):
+                exact = True
+        ctx.ob("R11.19", "delta_from_arg_vals: zero-step test@%s" % A.loc(v_)[1], exact, site=A.where(v_), detail={"options": A.src(A.kids(v_)[-1])[:60]},
+               key="R11.19:zero-step",
+               what="delta_from_arg_vals decides `the step is zero` with tolerance options (`%s`): a float range whose step is within the tolerance (`0.0 0.0005 ... 0.002`) is read as a range without step - the checker rejects text the printer wrote, or both readers silently drop the step" % A.src(A.kids(v_)[-1])[:40])
+    ctx.require(n19 >= 1, "R11.19: no comparison feeding the zero-step test of delta_from_arg_vals was found")
     ctx.rule("R11.11", "NULL-BUFFER-SCAN: the checker calls the scanner without a string buffer (NULL) only for a token it knows to be numeric - the call is unreachable when the range's type is not one of the numeric range types - because strings, symbols and blobs are stored through that buffer")
     from .C19 import _guards as _g19
     chkf = u.function("rtosc_skip_next_printed_arg")
